@@ -230,6 +230,11 @@ public:
 
                 break;
             }
+
+            default:
+            {
+                io_error( "Unsupported bits per pixel." );
+            }
         }
     }
 
